@@ -715,6 +715,8 @@ func (g *gctx) stmt(d int) string {
 		return g.pick("false", "true", "0", "1", "null", `""`) + " " + g.pick("&&", "||", "??") + " " + g.expr(d-1) + ";"
 	case 31:
 		return "(" + g.pick("false", "true", "0", "null", "1") + " " + g.pick("&&", "||", "??") + " " + g.expr(d-1) + "), " + g.expr(d-1) + ";"
+	case 32, 33, 34:
+		return g.special(d)
 	default:
 		return g.expr(d) + ";"
 	}
@@ -743,6 +745,9 @@ func genProgram(r *vh.Rng, strict bool) string {
 	depth := 2 + r.Intn(3)
 	for i := 0; i < n; i++ {
 		s := g.stmt(depth)
+		if r.Chance(25) {
+			s = g.special(depth)
+		}
 		if r.Chance(55) && !strings.HasPrefix(s, "function") && !strings.HasPrefix(s, "class") && !strings.HasPrefix(s, "async function") &&
 			!strings.HasPrefix(s, "let ") && !strings.HasPrefix(s, "const ") {
 			// keep going after a runtime exception so that later statements execute too
@@ -752,4 +757,121 @@ func genProgram(r *vh.Rng, strict bool) string {
 		sb.WriteString("\n")
 	}
 	return sb.String()
+}
+
+// special returns a statement from one of the program classes behind crashes found so far (by this or by other
+// properties' checks), parametrised by random sub-expressions, so that the whole class is generated routinely.
+func (g *gctx) special(d int) string {
+	e := func() string { return g.expr(d - 1) }
+	v := g.fresh()
+	w := g.fresh()
+	dyn := func() string { // something that makes the scope dynamic or captures bindings
+		return g.pick(`eval("")`, `eval("`+v+`")`, `eval("var `+w+` = 1")`, "(() => "+v+")()", "with (o) { "+v+" }", "(function() { return "+v+" })()", "0")
+	}
+	switch g.r.Intn(22) {
+	case 0, 1: // switch + lexical declaration + dynamic scope / closures
+		decl := g.pick("let "+v+" = "+e(), "const "+v+" = "+e(), "class "+v+" {}", "let ["+v+"] = [1]", "function "+v+"() {}", "let "+v)
+		if g.strict && strings.Contains(decl, "function") {
+			decl = "let " + v + " = 1"
+		}
+		d2 := dyn()
+		if g.strict && strings.HasPrefix(d2, "with") {
+			d2 = `eval("` + v + `")`
+		}
+		return "switch (" + e() + ") { case " + g.pick("0", "1", `"s"`, e()) + ": " + decl + "; " + d2 + "; " + g.pick("", "break;", "default: "+g.stmt(d-1)) + " }"
+	case 2, 3: // optional chains around calls with / without spread, as callee, nested in other expressions
+		chain := g.pick("f?.(...arr)", "z?.(...arr, 1)", "o.m?.(...c)", "o.n?.(...c, ...arr)", "z?.p(...arr)", "o?.q.r?.(...[])", "(z?.p)(...arr)", "(o?.m)()", "z?.p()()",
+			"o.n?.()()", "z?.[0]?.(...arr)", "new (z?.p)", "z?.p`t`", "o?.m(...arr)?.q", "delete z?.p(...arr)", "z?.p(...arr).q = 1", "z?.(...arr)?.(...c)")
+		return g.pick("["+chain+", 1]", "f("+chain+", ...arr)", "`${"+chain+"}`", "({p: "+chain+"})", chain, "x = "+chain+" + 1", "if ("+chain+") ; else "+chain) + ";"
+	case 4: // strict function with parameter expressions + eval + nested block
+		us := g.pick(`"use strict"; `, "")
+		return "(function " + g.pick("", "fn") + "(" + g.pick("p0 = "+e(), `p0 = eval("1")`, "p0, p1 = () => p0", "{p0} = {}, p1 = p0", "...p0") + ") { " + us +
+			"{ let " + v + " = p0; " + g.pick(`eval("`+v+`")`, `eval("var q = 1")`, "(() => "+v+")()", "") + "; { const " + w + " = " + e() + "; " + g.pick(`eval("`+w+`")`, "") + " } } " +
+			g.pick("", "return arguments.length;", `return eval("p0");`) + " })(" + g.args(d) + ");"
+	case 5, 6: // declarations in dead code after break / continue / return / throw
+		jump := g.pick("continue", "break", "continue L"+v, "break L"+v)
+		dead := g.pick("let "+w+" = 1;", "const "+w+" = "+e()+";", "class "+w+" {}", "let {"+w+"} = o;", "function "+w+"() {}", "var "+w+" = () => "+w+";", "let "+w+"; (() => "+w+");", "x = "+e()+";")
+		if g.strict && strings.HasPrefix(dead, "function") {
+			dead = "let " + w + ";"
+		}
+		body := "{ " + g.pick("", e()+"; ") + jump + "; " + dead + " " + g.pick("", g.stmt(d-1)) + " }"
+		return "L" + v + ": " + g.pick("for (var i"+v+" = 0; i"+v+" < 2; i"+v+"++) ", "for (var k"+v+" in o) ", "for (let e"+v+" of arr) ", "do ", "while (y++ < 2) ") + body +
+			map[bool]string{true: " while (y++ < 3);", false: ""}[strings.Contains(body, "XX")]
+	case 7, 8: // generators: finally + return()/throw(), yield inside try, resumed from different call depths
+		gen := "function* " + v + "(p) { " + g.pick("", "var q = yield 0; ") + "try { " + g.pick("yield 1;", "yield* arr;", "x = yield p;", "yield 1; yield 2;", "throw (yield 1);") +
+			" } " + g.pick("", "catch (e) { yield e; } ", "catch { "+g.pick("yield 9;", "return 9;", "throw 9;")+" } ") + "finally { " + g.pick("yield 3;", "y++;", "return 4;", "throw 5;", "yield* [6, 7];", "try { yield 8 } finally { y-- }") + " } " + g.pick("", "return 10;") + " }"
+		drv := "var " + w + " = " + v + "(1); "
+		for i, n := 0, 2+g.r.Intn(4); i < n; i++ {
+			call := g.pick(w+".next()", w+".next(1)", w+".return(7)", w+".throw(8)", w+".return()", "[..."+w+"]", "for (var u"+v+" of "+w+") break;")
+			if strings.HasPrefix(call, "for") {
+				drv += call + " "
+				continue
+			}
+			switch g.r.Intn(4) {
+			case 0:
+				drv += "(function dd(n) { return n ? dd(n - 1) : " + call + " })(" + g.pick("1", "3", "5") + "); "
+			case 1:
+				drv += "[1].forEach(() => " + call + "); "
+			case 2:
+				drv += "try { " + call + " } catch (e) {} "
+			default:
+				drv += call + "; "
+			}
+		}
+		return gen + " try { " + drv + "} catch (e) {}"
+	case 9: // private names in odd places
+		return g.pick("class "+v+" { #p = 1; static m(q) { return "+g.pick("#p in q", "q.#p", "q?.#p", "delete q.#p", "#p in #p", "q.#p++", "q.#p ??= 1", "[q.#p] = [1]", "({a: q.#p} = {a: 1})", "q.#p`t`", "q.#p?.()", "new q.#p")+" } } try { "+v+".m("+g.pick("o", "new "+v, "1", "null")+") } catch (e) {}",
+			"class "+v+" { #p; #p; }", "class "+v+" { m() { return this.#q } }", "#p;", "o.#p;", "(#p in o);", "class "+v+" { static #p = 1; static { "+v+".#p; #p in "+v+"; } }",
+			"class "+v+" { get #p() { return 1 } set #p(v) {} static #s() {} m() { this.#p = this.#p; "+v+".#s() } } new "+v+"().m();",
+			"class "+v+" extends (class { constructor() { return o } }) { #p = 1; static t(q) { return #p in q } } new "+v+"(); "+v+".t(o);", `class `+v+` { #p; m() { return eval("this.#p") } } new `+v+`().m();`)
+	case 10: // typed arrays / buffers with boundary arguments
+		ta := g.pick("Uint8Array", "Int16Array", "Float64Array", "BigInt64Array", "Uint8ClampedArray")
+		return "try { var " + v + " = new " + ta + "(" + g.pick("0", "2", "4", "new ArrayBuffer(8), 8", "new ArrayBuffer(8), 0, 1") + "); " +
+			g.pick(v+".set([], "+g.pick("0", "2", "5", "-1", "Infinity")+")", v+".set(new "+ta+"(0), "+g.pick("0", "2", "9")+")", v+".set("+v+", 1)", v+".set({length: 0}, 3)", v+".subarray(3, 1)",
+				v+".copyWithin(1, 0, 9)", v+".fill(1, -9, 9)", v+".slice(5)", "new DataView("+v+".buffer, "+g.pick("0", "8", "9")+")", v+".set([1, 2], 1)", v+"[5] = 1", "Object.defineProperty("+v+", 9, {value: 1})",
+				v+".at(-9)", "Array.prototype.splice.call("+v+", 0, 1)", "new "+ta+"("+v+".buffer, 1)", v+".indexOf(1, 9)", v+".lastIndexOf(1, -9)", v+".with?.(9, 1)") + "; } catch (e) {}"
+	case 11: // regexp with lastIndex beyond the subject / sticky / global / unicode
+		fl := g.pick("y", "g", "gy", "u", "yu", "gu", "", "d", "s")
+		return "try { var " + v + " = /" + g.pick("a", "a*", "(?:)", ".", "\\u{1F600}", "(a)|b", "$", "(?<n>a)") + "/" + fl + "; " + v + ".lastIndex = " + g.pick("5", "2", "-1", "2**32", "Infinity", "1") + "; " +
+			g.pick(`"aa".replace(`+v+`, "b")`, `"aa".replace(`+v+`, () => "$1")`, `"a\u{1F600}a".replace(`+v+`, "$<n>")`, v+`[Symbol.replace]("aa", "b")`, `"aa".split(`+v+`)`, `[..."aa".matchAll(/a/g)]`,
+				v+`.exec("aa")`, v+`.test("a")`, `"aa".match(`+v+`)`, `"aa".search(`+v+`)`, `"aa".replaceAll(/a/g, "$'")`, v+`[Symbol.split]("aa", 1)`) + "; } catch (e) {}"
+	case 12: // \u{...} escapes (astral code points included) in identifiers, labels, property names, private names
+		id := g.pick(`\u{1d4d0}`, `a\u{10000}`, `\u{61}b`, `ac`, `\u{2F800}`, `\u{1d4d0}\u{1d4d1}`, `\u{10FFFF}`, `\u{110000}`, `𝓐`, `\u{200c}`, `a\u{200d}`)
+		return g.pick("var "+id+" = 1; "+id+"++;", id+": for (;;) { break "+id+"; }", "({"+id+": 1})."+id+";", "o."+id+" = "+id+";", "class "+v+" { #"+id+" = 1; m() { return this.#"+id+" } }", "function "+id+"("+id+") {}",
+			"let {"+id+": "+v+"} = o;", "`${"+id+"}`;", "var "+id+"; ({"+id+"} = o);", id+" => "+id+";", "import."+id+";", "typeof "+id+";")
+	case 13, 14: // destructuring heads of for-in / for-of with closures capturing some of the bindings
+		kw := g.pick("let", "const", "var")
+		pat := g.pick("["+v+", "+w+"]", "{p: "+v+", q: "+w+"}", "["+v+", {r: "+w+"} = {}]", "{"+v+" = 1, ..."+w+"}", "["+v+" = () => "+w+", "+w+"]", "["+v+", ..."+w+"]", "{length: "+v+", [0]: "+w+"}")
+		src := g.pick("[[1, 2], [3, 4]]", "[o, o.q]", "[\"ab\", \"cd\"]", "new Map([[1, 2]])", "o", "arr")
+		of := "of"
+		if src == "o" {
+			of = "in"
+		}
+		cap := g.pick("fs.push(() => "+v+");", "fs.push(() => "+w+");", "(() => "+v+" + "+w+");", `eval("`+v+`");`, "", "fs.push(function() { return "+v+" });")
+		return "var fs = []; try { for (" + kw + " " + pat + " " + of + " " + src + ") { " + cap + " " + g.pick("", "continue;", "break;", g.stmt(d-1)) + " } fs.forEach(q => q()); } catch (e) {}"
+	case 15: // async functions / promises settled through the job queue
+		return "(async function() { " + g.pick("await 1;", "try { await Promise.reject(1) } catch (e) { "+v+" = e } finally { await 2 }", "for await (var "+v+" of [1, Promise.resolve(2)]) { "+g.pick("break;", "continue;", "")+" }",
+			"await (async () => { throw 1 })().catch(() => 2);", "return await new Promise(r => r(1));") + " })()" + g.pick("", ".then(() => y++)", ".catch(() => 0)") + ";"
+	case 16: // accessors, proxies and Reflect reached from script (native <-> script re-entry)
+		return "try { " + g.pick("new Proxy(o, {get(t, k) { return "+e()+" }}).p", "new Proxy(f, {apply() { return "+e()+" }})(...arr)", "Reflect.apply(f, o, arr)", "Reflect.construct(f, arr, Object)",
+			"Object.defineProperty({}, \"p\", {get() { throw 1 }}).p", "JSON.stringify({toJSON() { return "+e()+" }})", "arr.sort(() => { throw 1 })", "[1, 2].map(f?.bind?.(o))", "String(Symbol())", "`${Symbol()}`",
+			"Object.setPrototypeOf(o, new Proxy({}, {}))", "Array.from({length: 2}, (q, i) => "+e()+")", "new (class extends Array { constructor() { super(...arr) } })") + "; } catch (e) {}"
+	case 17: // comma / logical / conditional operands whose value is discarded (constant-folding paths)
+		c0 := g.pick("false", "null", "0", `""`, "undefined", "NaN", "true", "1", `"s"`)
+		op := g.pick("&&", "||", "??")
+		return g.pick("("+c0+" "+op+" "+e()+"), "+e()+";", "for ("+c0+" "+op+" "+e()+"; y++ < 2; "+c0+" "+op+" "+e()+") ;", "[(("+c0+" "+op+" x), 1), 2];", "f(("+c0+" "+op+" "+e()+", 1), 2);",
+			"("+c0+" ? "+e()+" : "+e()+"), 1;", "void ("+c0+" "+op+" "+e()+");", "(("+c0+" "+op+" "+e()+"), ("+c0+" "+op+" "+e()+"));")
+	case 18: // with + closures + delete + typeof on unresolvable names
+		if g.strict {
+			return "typeof " + v + "; try { " + v + " } catch (e) {}"
+		}
+		return "with (" + g.pick("o", "{"+v+": 1}", "new Proxy({}, {has() { return true }})") + ") { " + g.pick(v+" = 1;", "var "+v+" = 2;", "delete "+v+";", "(() => "+v+")();", "typeof "+v+";", v+"?.();", "f(..."+g.pick("arr", v)+");", `eval("var `+w+`");`) + " }"
+	case 19: // class fields / static blocks / computed keys with side effects and super
+		return "try { class " + v + " extends " + g.pick("Object", "f", "null", "(class { constructor() { this.b = 1 } })") + " { [" + e() + "] = " + e() + "; static [" + e() + "] = " + g.pick("this", "super.x", "new.target", e()) +
+			"; static { " + g.pick("super.x = 1;", "this.y = () => super.z;", "try { "+v+"; } finally { }", g.stmt(d-1)) + " } " + g.pick("constructor() { "+g.pick("super();", "super(...arr);", "return o;", "(() => super())();", "")+" }", "") + " } new " + v + "; } catch (e) {}"
+	case 20: // labelled blocks, break out of try/finally, nested finally
+		return "L" + v + ": { try { try { " + g.pick("break L"+v+";", "throw 1;", e()+";") + " } finally { " + g.pick("break L"+v+";", "y++;", "try { throw 2 } catch { }") + " } } catch (e) { " + g.pick("break L"+v+";", "") + " } finally { " + g.pick("", "y--;") + " } }"
+	default: // arguments object, rest, mapped arguments with eval
+		return "(function(p0, p1) { " + g.pick(`"use strict"; `, "") + g.pick("arguments[0] = 2;", "p0 = 3;", `eval("p0 = 4");`, "delete arguments[0];", "arguments.length = 0;", "(() => arguments)();") + " return " + g.pick("p0 + arguments[0]", "[...arguments]", "arguments.callee", "f(...arguments)") + "; })(" + g.args(d) + ");"
+	}
 }
